@@ -623,6 +623,13 @@ func (w *worker) explore(res *workerResult) {
 		w.mark(fmt.Sprintf("seed=%d run=%d", seed, i))
 		keep := nSamples < 2 && from == 0
 		tape := NewTape(Mix(seed, uint64(i)))
+		if p := os.Getenv("VERIF_TAPEFILE"); p != "" {
+			// Used by the driver when it re-runs a run that killed its worker.
+			if f, err := os.Create(p); err == nil {
+				tape.Sink = f
+				defer f.Close()
+			}
+		}
 		rc := w.exec(tape, keep)
 		res.Runs++
 		res.Steps += rc.Steps
